@@ -338,40 +338,39 @@ theorem error_in_try_catchable (body : M Val) (handlers : List Handler) (oth : O
 example : ∃ s', (tryCore (throw (Sig.err ⟨"Operand is not a number", 1, 1⟩ none))
       [fun _ => pure (some (Val.num 7))] none).run.run {} = (.ok (Val.num 7), s') := ⟨_, rfl⟩
 
-/-- The evaluator model never yields `panic` — PARTIAL (one gap left: calls).
+/-- The evaluator model never yields `panic` on the fragment `Frag` (all constructs of the model, calls included).
 
-    Full statement (kept visible): for every tree `n` the parser can return (C07's `WellFormed`), every
-    scope `sc`, every state `s` with `Inv s` and every fuel `f`: `(eval f sc n).run.run s` does not end in
-    `Sig.panic`. About the CODE it additionally needs the hypothesis "no container that (transitively)
-    contains itself reaches fmt.Sprint / log / `%#v`" (known finding `cyclic-container-stringify`: the Go
-    printer overflows the stack; the model's printer is fuel-bounded and cannot panic) — SPEC["assumptions"].
-
-    Proved here: exactly that — plus preservation of `Inv` — for every tree in `Frag`
-    (`Ecal/Lemmas/C06NoPanic.lean`), ANY scope, ANY heap (operands of any kind, dangling references, cyclic
-    containers), any fuel. `Inv s`: every declaration in the function table is a `Frag` function node, every
-    tree of the interpolation table is in `Frag` (`inv_empty`: it holds initially). `Frag` contains, nested to
-    any depth (shape conditions: token present, child counts, children in `Frag` — what the parser produces):
+    Statement: for every tree `n` in `Frag`, every scope `sc`, every state `s` with `Inv s` and every fuel `f`:
+    `(eval f sc n).run.run s` does not end in `Sig.panic`, and `Inv` holds afterwards. ANY heap: operands of any
+    kind, dangling references, cyclic containers. `Inv s`: every declaration in the function table is a `Frag`
+    function node, every tree of the interpolation table is in `Frag` (`inv_empty`: holds initially).
+    What kind of theorem this is: in `Ecal.Ev` a `panic` can only come from the SHAPE of the tree (nil child,
+    missing token, arity) — the value-level panics of Go are transcribed there as guarded errors; that these
+    guards are the right ones is `guards_sufficient` + `model_is_guard_then_primitive` + `guards_necessary`
+    above, and that the transcription matches /repo is the correspondence run. About the CODE the statement
+    additionally needs: no container that (transitively) contains itself reaches fmt.Sprint / log / `%#v`
+    (known finding `cyclic-container-stringify`; the model's printer is fuel-bounded), and no container is
+    used by two ECAL threads outside `mutex` (known finding `unsynchronised-shared-container`; the model is
+    sequential).
+    `Frag` contains, nested to any depth (shape conditions: token present, child counts, children in `Frag`):
     * literals `number true false null`, raw and interpolating strings, list literals, map literals (an entry
       that is not a key-value pair and an unhashable key are ERRORS — the repaired sites — not panics);
     * unary `plus minus not`, `guard`; binary `plus minus times div divint modint and or == != >= > <= <
       in notin hasprefix hassuffix`; `like` and the other nodes the model does not evaluate: `unsupported`;
-    * identifiers WITH access paths `a.b[c].d…` (read: `accessString` with a loop invariant for its early
-      return; write: `identSet`), `:=` with an identifier / path / destructuring list on the left, plain or
-      under `let`; `let a`, `let [a, b]`;
+    * identifiers with access paths `a.b[c].d…` INCLUDING call links `f(x)`, `a.b(x)`, `a[i](x)`: user
+      functions (`runFunction` under `Inv`: frame, `this`/`super`, parameters with defaults, body) and the
+      builtins of the model `log error debug x.mark len type del add concat new raise range` (`lenB addB delB
+      concatB newB` with `addSuperClasses`, `goSyntax`, `prettyArg`); any other builtin name: `unsupported`;
+    * `:=` with an identifier / path / destructuring list on the left, plain or under `let`; `let a`, `let [a, b]`;
     * `statements`, `break continue return`; `if`/`elif`/`else`; condition loops and `for … in` loops over
       lists, maps, iterator functions and single values, one or several loop variables;
     * `try` with every clause shape (`except { }`, `except e { }`, `except as e { }`, typed `except "T", "U"
       [as e] { }`, `otherwise`, `finally`);
     * function declarations (named / anonymous, parameters with and without defaults).
-    Proved for every input besides: `runFunction` on ANY table entry with ANY arguments under `Inv`
-    (`user_function_run_never_panics`), `getValue setValue containerGet containerWalk listIndex` (the three
-    repaired negative-index sites), heap / scope primitives, `sprint`, `deepEq`, `bindLoopVars`, `errObject`,
-    the combinators `ifChain guardLoop iterLoop dispatchExcept tryCore tryFinally callCore withFreshIs`.
-    REMAINING: a `funccall` link inside an access path (`f(x)`, `a.b(x)`): `callFunction` / `runBuiltin`
-    (the Eval-side builtins `lenB addB delB concatB newB`, range, raise, type, log) are not connected yet —
-    in `Frag` a path has no call link (`Link` has no `call` constructor; the argument checks of the builtins
-    are covered by `builtin_total` on the Prims model); the bridge `WellFormed n → Frag n` (C07's predicate)
-    is not proved; sink / import / mutex are not in the model. -/
+    REMAINING: the bridge from the parser (`WellFormed n → Frag n`, C07's predicate) is not proved — instead
+    `fragB` decides membership and the driver reports the measured share of generated trees inside `Frag`
+    (evidence `frag_share`); `validate` is a `partial def` of the shared model (not provable; tested);
+    sink / import / mutex are not in the model (engine path: test families A, E, K, modes s/d/w). -/
 theorem eval_never_panics_partial (f sc : Nat) (n : Ecal.Parse.Node) (hn : Frag n) (s : St) (hs : Inv s) :
     ((eval f sc n).run.run s).1 ≠ .error Sig.panic ∧ Inv ((eval f sc n).run.run s).2 :=
   eval_frag_no_panic f sc n hn s hs
